@@ -36,6 +36,9 @@ type Options struct {
 	// it after the limit option instead of before. The limit must not depend on it.
 	Init      string `json:"init,omitempty"`
 	InitAfter bool   `json:"init_after,omitempty"`
+	// Stats: "ratio" = WithCompressionRatioStats (the statistics options that print on every
+	// batch are left out: the workers talk to their parent over stdout)
+	Stats string `json:"stats,omitempty"`
 }
 
 func DefaultOptions() Options { return Options{Reset: -1, Zstd: -1, Span: -1, Attrs16: -1, Attrs32: -1} }
@@ -59,6 +62,9 @@ func (o Options) String() string {
 	}
 	if o.Attrs32 >= 0 {
 		p = append(p, fmt.Sprintf("attrs32=%d", o.Attrs32))
+	}
+	if o.Stats != "" {
+		p = append(p, "stats="+o.Stats)
 	}
 	if o.Init != "" {
 		if o.InitAfter {
@@ -134,6 +140,9 @@ func (o Options) build(extra ...cfg.Option) []cfg.Option {
 	}
 	if o.Span >= 0 {
 		out = append(out, cfg.WithOrderSpanBy(cfg.OrderSpanBy(o.Span)))
+	}
+	if o.Stats == "ratio" {
+		out = append(out, cfg.WithCompressionRatioStats())
 	}
 	if o.Attrs16 >= 0 {
 		out = append(out, cfg.WithOrderAttrs16By(cfg.OrderAttrs16By(o.Attrs16)))
